@@ -174,6 +174,17 @@ def tlc(module, cfg, workers=None, emit=True, simulate=None, timeout=1800, cover
         shutil.rmtree(tmp, ignore_errors=True)
 
 
+def maxabs(x):
+    """max |x| that does not let NaN slip through a `> tolerance` test: any NaN (or an empty comparison) counts as infinite."""
+    import numpy as np
+    a = np.abs(np.asarray(x))
+    if a.size == 0:
+        return 0.0
+    if np.isnan(a).any():
+        return float('inf')
+    return float(a.max())
+
+
 def parallel(thunks, background=False, max_workers=None):
     """Run thunks concurrently (each typically one single-worker TLC emission run).  With background=True
     returns a function that waits for and returns the results, so that multi-worker runs can proceed meanwhile."""
